@@ -54,4 +54,16 @@ func init() {
 				"all": 0, "keys": 0, "values": 0, "hottest": 1, "coldest": 1, "setmax": 0, "getmax": 0, "wsize": 0, "esize": 0, "cleanup": 1, "stats": 0, "advance": 0, "runexec": 0}},
 		nontrivial: func(o *SeqOutcome) bool { return o.Probes["admission-decisions-checked"] > 0 },
 	})
+	// C03 (concurrent form): rounds separated by barriers at which the clock moves onto / around the
+	// deadlines; per-key histories against the map with deadlines.
+	c03 := &ConcOpts{
+		Profile: Profile{Prop: "C03", ForceExp: true, NoCustomExp: true, NoRef: true, Keys: [2]int{1, 4}},
+		OpW: zeroExcept(map[string]int{"set": 14, "setifabsent": 8, "get": 14, "getentry": 3, "getquiet": 3, "compute": 8, "computeifabsent": 5, "computeifpresent": 5,
+			"invalidate": 6, "setexpires": 4, "cleanup": 2}),
+		Tasks: [2]int{2, 4}, OpsPer: [2]int{4, 18}, Prefill: [2]int{0, 4},
+		Executors: []string{"default", "sync", "queued"}, Rounds: true,
+		NonTrivial: func(o *ConcOutcome) bool { return o.Overlaps > 0 && o.Probes["barrier-clock-advances"] > 0 },
+	}
+	Props["C03"].Engines = append(Props["C03"].Engines, &concEngine{opts: c03})
+	Props["C03"].Conc = c03
 }
